@@ -2,7 +2,8 @@
 From Coq Require Import ZArith List.
 Import ListNotations.
 Require Import GV.Model.J1939 GV.Model.Governor GV.Model.Hcu GV.Model.Object GV.Model.HcuUnit
-  GV.Spec.C02_spec GV.Spec.C01_spec GV.Proofs.C01_proof.
+  GV.Spec.C02_spec GV.Spec.C01_spec GV.Proofs.C01_proof
+  GV.Model.Units GV.Model.Authority GV.Model.Auth_io GV.Model.C01a_io GV.Proofs.C01_auth.
 Local Open Scope Z_scope.
 
 Theorem C01 : forall c, c01_wf c = true -> c01_spec_ok c (c01_model c) = true.
@@ -24,3 +25,23 @@ Theorem C01_inert : forall u c,
   /\ (forall f, tx_last (r_ctx (hcu_recv u c f)) = tx_last c).
 Proof. exact c01_inert. Qed.
 Print Assumptions C01_inert.
+
+(* ---- the same through the NetworkAuthority model, for ANY driver configuration and ANY history of
+   authority events — cycles, accepted commands whether or not their frames left the socket
+   (A01Fail: every write failed), received frames, waits, setup, teardown: each hydraulic-unit
+   driver's register holds the most recent ACCEPTED motion command ... ---- *)
+Theorem C01_authority_register : forall evs a now cur,
+  hcu_inv (a_items a) cur -> hcu_inv (a_items (fst (a01after a now evs))) (last_accepted cur evs).
+Proof. exact authority_register. Qed.
+Print Assumptions C01_authority_register.
+(* ... so that the next cycle re-sends exactly its encoding (the lock frame alone for stop-all) *)
+Theorem C01_authority_reasserts : forall addr nm cs evs,
+  let a := fst (a01after (auth_new 0 addr nm cs) 0 evs) in
+  forall it now, In it (a_items a) -> i_kind it = KHcu ->
+    item_tick_frames it now = encode_motion (u_da (i_cfg it)) (u_sa (i_cfg it)) (last_accepted StopAll evs).
+Proof. exact authority_reasserts. Qed.
+Check C01_authority_reasserts : forall addr nm cs evs,
+  let a := fst (a01after (auth_new 0 addr nm cs) 0 evs) in
+  forall it now, In it (a_items a) -> i_kind it = KHcu ->
+    item_tick_frames it now = encode_motion (u_da (i_cfg it)) (u_sa (i_cfg it)) (last_accepted StopAll evs).
+Print Assumptions C01_authority_reasserts.
